@@ -99,3 +99,12 @@ Proof.
   rewrite numerator_expo, (col_A5 p Hc), (col_A7 p Hc). rewrite denom1_det in Hd1. rewrite denom2_det in Hd2.
   rewrite pm_expo_collinear by assumption. reflexivity.
 Qed.
+
+(* non-vacuity witnesses *)
+Lemma collinear_example : pm_collinear pm_example_collinear /\ pm_physical pm_example_collinear.
+Proof.
+  split.
+  - repeat split; reflexivity.
+  - unfold pm_physical, pm_example_collinear; cbn [p_wsx p_wsy p_wix p_wiy p_theta_s_e p_theta_i_e].
+    rewrite cos_0. repeat split; lra.
+Qed.
